@@ -85,20 +85,41 @@ def panic_tag(ans):
 _LOOPY = re.compile(r"@\s*(while|for|each|include|mixin|function|import|use|forward)\b|@[^\s{;(]*\\", re.I)
 
 
-def wrap_unevaluated(job):
-    """The same text parsed but not evaluated: inside `@if false`."""
-    j = json.loads(json.dumps(job))
-    syn = j.get("options", {}).get("syntax", "scss")
-    src = j.get("input")
-    if src is None:
-        return None
+def _wrap_text(src, syn):
     if syn == "sass":
-        j["input"] = "@if false\n" + "".join("  " + l + "\n" for l in src.split("\n"))
-    elif syn == "scss":
-        j["input"] = "@if false{\n" + src + "\n}"
-    else:
-        return None
-    return j
+        return "@if false\n" + "".join("  " + l + "\n" for l in src.split("\n"))
+    if syn == "scss":
+        return "@if false{\n" + src + "\n}"
+    return None
+
+
+def wrap_unevaluated(job):
+    """The same text parsed but not evaluated: inside `@if false` (for a job over files: every file
+    that has loop constructs of its own)."""
+    j = json.loads(json.dumps(job))
+    src = j.get("input")
+    if src is not None:
+        j["input"] = _wrap_text(src, j.get("options", {}).get("syntax", "scss"))
+        return j if j["input"] is not None else None
+    files = j.get("files") or {}
+    done = False
+    for name, text in list(files.items()):
+        syn = name.rsplit(".", 1)[-1]
+        if isinstance(text, str) and syn in ("scss", "sass") and _LOOP_ONLY.search(text):
+            body = text
+            # module rules must stay first: keep a leading run of @use/@forward lines outside the wrapper
+            head = ""
+            while True:
+                m = re.match(r"\s*@(?:use|forward)[^;\n]*[;\n]", body)
+                if not m:
+                    break
+                head += m.group(0)
+                body = body[m.end():]
+            if not _LOOP_ONLY.search(body):
+                continue
+            files[name] = head + (_wrap_text(body, syn) or body)
+            done = True
+    return j if done else None
 
 
 # --------------------------------------------------------------------------------------------
@@ -493,16 +514,23 @@ def tag_of_answer(ans):
     return None
 
 
+_LOOP_ONLY = re.compile(r"@\s*(while|for|each|include|mixin|function)\b", re.I)
+
+
 def loopy(job):
     src = job.get("input")
-    return src is not None and bool(_LOOPY.search(src)) and job.get("options", {}).get("syntax", "scss") != "css"
+    if src is not None:
+        return bool(_LOOPY.search(src)) and job.get("options", {}).get("syntax", "scss") != "css"
+    return any(isinstance(t, str) and not n.endswith(".css") and _LOOP_ONLY.search(t) for n, t in (job.get("files") or {}).items())
 
 
 def split_excluded(pool, fs):
     """A timeout/abort is outside the property when the program has loops/recursion of its own and the
     same text, parsed but not evaluated (inside `@if false`), terminates.  -> (kept, n_excluded)"""
-    cand = [f for f in fs if loopy(f["job"])]
-    wrapped = [wrap_unevaluated(f["job"]) for f in cand]
+    cand = [(f, wrap_unevaluated(f["job"])) for f in fs if loopy(f["job"])]
+    cand = [(f, w) for f, w in cand if w is not None]
+    wrapped = [w for _, w in cand]
+    cand = [f for f, _ in cand]
     answers = pool.map(wrapped, timeout=10.0) if wrapped else []
     excluded = {id(f) for f, a in zip(cand, answers) if a.get("status") in ("ok", "err")}
     return [f for f in fs if id(f) not in excluded], len(excluded)
